@@ -134,11 +134,16 @@ IdemOp(o) ==
         /\ OpExact(mo.st, o)
         /\ \A m2 \in MApply(mo.st, o) : \A q \in PNames : m2.st[q].w = mo.st[q].w
 
-\* the reduction in force (the constructor's, or the last one set) is the one every read uses
+\* the reduction in force (the constructor's, or the last one set) is the one every read uses,
+\* whatever the number of pending parts - none, exactly ONE (the reduction is still applied:
+\* stack of one part, reduce over it), or several
 CustomRedOp(o) ==
   o.a = "read" =>
+     LET L == IF o.side = "pos" THEN st[o.p].posL ELSE st[o.p].negL IN
      \A mo \in MApply(st, o) :
-        mo.ret = ReduceOpt(st[o.p].red, IF o.side = "pos" THEN st[o.p].posL ELSE st[o.p].negL)
+        /\ mo.ret = ReduceOpt(st[o.p].red, L)
+        /\ Len(L) = 0 => ~mo.ret.some
+        /\ Len(L) = 1 => mo.ret = SomeV(Reduce(st[o.p].red, <<L[1]>>))
 
 \* Refinement, NoopWhenEmpty, Idempotent, CustomReductionUsed: for ALL operations in every reachable state
 OpInvariants ==
@@ -241,7 +246,7 @@ OffGrid == -777777
 ReadView(r, L) ==
   IF Len(L) = 0 THEN NoneV
   ELSE SomeV([e \in 1..Len(L[1]) |->
-               IF r = "mean" /\ SumTo(L, e, Len(L)) % Len(L) # 0 THEN OffGrid ELSE ReduceE(r, L, e)])
+               IF ~ReduceEOK(r, L, e) THEN OffGrid ELSE ReduceE(r, L, e)])
 ViewP(ps) == [w |-> ps.w, posL |-> ps.posL, negL |-> ps.negL, red |-> ps.red, bnd |-> ps.bnd,
               pos |-> ReadView(ps.red, ps.posL), neg |-> ReadView(ps.red, ps.negL)]
 View(s) == [q \in DOMAIN s |-> ViewP(s[q])]
